@@ -16,6 +16,11 @@ def main(argv):
         return 2
     prop = argv[0].upper()
     try:
+        if prop == "C13":
+            # before the package is imported: locks created by the package (and by what it imports) become cooperative, so
+            # that the schedule explorer owns waiting on them
+            from . import sched
+            sched.install_coop_locks()
         backend = core.bind_repo()
         from .ref import secp, enc, hd
         try:
